@@ -186,7 +186,7 @@ def rule_status(repo, tier):
     res = RuleResult('C10.STATUS', 'the status of every status-returning factorisation reaches a raising check before the factor is used', floor=1)
     mods = [SOLVER] if tier == 'quick' else sorted(repo.modules)
     for m in mods:
-        for f in repo.module(m).functions.values():
+        for f in repo.functions_view(m):
             check_function(repo, f, res)
     f = repo.func(SOLVER, 'Cholesky.forward')
     if not status_sites(repo, f):
@@ -374,7 +374,7 @@ def rule_tri(repo, tier):
                      'expression (also through a helper): a lower factor solved as an upper one returns a wrong vector without any error', floor=1)
     mods = [SOLVER] if tier == 'quick' else sorted(repo.modules)
     for m in mods:
-        for f in repo.module(m).functions.values():
+        for f in repo.functions_view(m):
             solves = [c for c in _walk_own(f.node) if isinstance(c, ast.Call) and (dotted(c.func) or '').split('.')[-1] in SOLVE_FUNCS]
             if not solves:
                 continue
